@@ -531,18 +531,20 @@ class RuntimeV1_0(Runtime):
         try:
             parsed_data = parse_colang_file("dynamic.co", content=body)
             assert len(parsed_data["flows"]) == 1
+
+            flow = parsed_data["flows"][0]
+
+            # To make sure that the flow will start now, we add a start_flow element at
+            # the beginning as well.
+            flow["elements"].insert(0, {"_type": "start_flow", "flow_id": flow_id})
+
+            # We add the flow to the list of flows.
+            self._load_flow_config(flow)
         except Exception as e:
             log.info("Could not parse the dynamic flow: %s", e)
+            # (a flow that could only be loaded in part is not kept)
+            self.flow_configs.pop(flow_id, None)
             return [new_event_dict("BotIntent", intent="general response")]
-
-        flow = parsed_data["flows"][0]
-
-        # To make sure that the flow will start now, we add a start_flow element at
-        # the beginning as well.
-        flow["elements"].insert(0, {"_type": "start_flow", "flow_id": flow_id})
-
-        # We add the flow to the list of flows.
-        self._load_flow_config(flow)
 
         # And we compute the next steps. The new flow should match the current event,
         # and start.
